@@ -230,12 +230,12 @@ Print Assumptions C10_io_repetition_chains_partial.
 (* ---- repetition_change in the text view and to_json ----------------------- *)
 
 (* one record per repetition_change level, in order, under the level's path,
-   with value = the level's t1 and the indexes recorded for that path *)
+   with value = the level's t1 and the indexes of the record stored on that level *)
 Theorem C10_repetition_text :
   forall es rs,
-    Forall2 (fun e t => trpath t = render (ep1 e) /\ trval t = opt_val (et1 e) /\
-                        (trold t, trnew t) = rep_lookup (ep1 e) rs)
-            (filter (fun e => rkind_eqb (ekind e) KRepetition) es) (rep_view es rs).
+    List.length rs = List.length (filter is_rep es) ->
+    Forall2 (fun e t => trpath t = render (ep1 e) /\ trval t = opt_val (et1 e)) (filter is_rep es) (rep_view es rs) /\
+    Forall2 (fun r t => trold t = snd (fst r) /\ trnew t = snd r) rs (rep_view es rs).
 Proof. exact rep_view_spec. Qed.
 Print Assumptions C10_repetition_text.
 
@@ -327,6 +327,20 @@ Theorem C10_norep_implies_aligned :
     aligned H c t1 t2 = true /\ sibinj H c t1 = true.
 Proof. intros. split; [apply norep_aligned; assumption|apply norep_sibinj; assumption]. Qed.
 Print Assumptions C10_norep_implies_aligned.
+
+(* ... carried into the text view: the repetition_change category of a run has one
+   record per level, in order, under the level's path, value = the level's t1,
+   old_indexes / new_indexes = the positions of the level's hash in the two lists *)
+Theorem C10_io_repetition_text_payload :
+  forall H udiff skip excl c pairs t1 t2,
+    wf t1 = true -> wf t2 = true ->
+    let r := run_diff_io H udiff skip excl c true pairs t1 t2 in
+    Forall2 (fun e t => trpath t = render (ep1 e) /\ trval t = opt_val (et1 e) /\
+                        exists rc, rep_rec_ok H c t1 t2 e rc /\ trold t = rold rc /\ trnew t = rnew rc)
+            (filter is_rep (fst r))
+            (rep_view (fst r) (map (fun x => (rpath x, rold x, rnew x)) (snd r))).
+Proof. exact run_io_rep_text_payload. Qed.
+Print Assumptions C10_io_repetition_text_payload.
 
 (* hence the text view of EVERY report_repetition run is the documented
    projection of its tree, no guard *)
